@@ -13,6 +13,17 @@
            Lean spec encoders → ELFFile.get_dwarf_info(relocate_dwarf_sections=True/False) → bytes of
            debug_info_sec.stream vs the psABI formula (S+A, S+A-P, in-place addend, add/sub; truncated to the
            field width; every other byte unchanged; rejected entries → ELFRelocationError) and the model.
+
+  Fifth wave — WHOLE FILES.  Every image of the rel / relr / apply streams is, in addition, handed to the file-level
+  model (`file_api`: the only input is the byte string; headers, names, sh_link, the machine and all contents are
+  decoded by the mirror of elffile.py) and a second ELFFile object is driven through the public API in a
+  content-derived order: get_section(i), get_section_by_name(name), RelocationHandler.find_relocations_for_section,
+  RelocationHandler.apply_section_relocations on a caller-made copy of the section's bytes, get_dwarf_info.  Direct
+  comparisons: the objects reached by index and by name present the encoded entries; the relocation section found is
+  the standard's lookup by name (`spec_find`; = by sh_info when names follow the convention, counted); the
+  caller-side apply gives the psABI fold.  apply also draws R_*_NONE at / beyond the section end, MIPS64 composite
+  entries with any first type and flavour, and COMDAT-style duplicate section names (names not conventional: put aside
+  for the direct comparison, correspondence only); dyn draws tables at virtual address 0 and missing DT_*SZ tags.
 """
 import io, struct
 from common import run_impl, canon, hx, rnd_uint, rnd_bytes
@@ -25,10 +36,15 @@ RULE = ('rel: (machine, class, byte order, flavour, 0..6 entries) with every ent
         'JMPREL flavour by DT_PLTREL; apply: machine x flavour x 0..5 relocations with types from the union of all listed '
         'type numbers (plus unlisted ones), symbol values / addends / in-place values at wrap boundaries, offsets anywhere '
         'in the section incl. the last possible position, 12% out-of-range symbol indices, 15% wrong flavour, both '
-        'relocate_dwarf_sections values. R_*_NONE is only checked with 8 bytes of room (the library reads a word there). '
+        'relocate_dwarf_sections values; R_*_NONE at any offset (incl. the last bytes of the section and beyond it); MIPS64 '
+        'composite entries (r_type2/r_type3/r_ssym) with any first type, REL and RELA; 8% COMDAT-style duplicate names. '
+        'Every image also goes through the file-level model (bytes only) and a second ELFFile driven through get_section / '
+        'get_section_by_name / find_relocations_for_section / apply_section_relocations / get_dwarf_info in a content-derived '
+        'order; dyn: 6% tables at virtual address 0. '
         'Non-trivial = distinct generated case; every case parses at least the container and one table/section.')
-ASSUMPTIONS = ['io.BytesIO read/seek/tell/write semantics', 'ELF container parsing (section headers, names, section data, '
-               'symbol table lookup by sh_link, PT_LOAD lookup) is as built by harness/elfbuild.py — subject of other properties',
+ASSUMPTIONS = ['io.BytesIO read/seek/tell/write semantics', 'images are assembled by harness/elfbuild.py (container) around the '
+               'Lean spec encoders\' contents; the file-level model decodes the container itself (C01\'s mirror), the '
+               'argument-fed kinds (run_relsec, run_relr, run_dyn, run_apply) take header fields as the library reports them',
                'debug section address sh_addr = 0 in relocatable objects (P = r_offset)',
                'the dynamic section has a string table (DynamicTag construction)']
 
@@ -114,6 +130,83 @@ def open_elf(data):
     return ELFFile(io.BytesIO(data))
 
 
+# --------------------------------------------------------------------------------------------- whole files
+def content_bit(data, k=0):
+    """a choice derived from the image's content (replays must make the same one)"""
+    return ((sum(data[-96:]) + len(data) // 8) >> k) & 1
+
+
+def section_index_of(ef, sec):
+    """index of a section object: the first header equal to its header (names are compared too: sh_name is in it)"""
+    for i in range(ef.num_sections()):
+        if ef._get_section_header(i) == sec.header:
+            return i
+    return None
+
+
+def impl_file_ops(data, ops):
+    """ONE ELFFile object, the operations in the order given, each answered in the driver's `file_api` format"""
+    from elftools.elf.relocation import RelocationSection, RelrRelocationSection, RelocationHandler
+    state = {}
+
+    def ef():
+        if 'ef' not in state:
+            try:
+                state['ef'] = open_elf(data)
+            except Exception as e:      # noqa: BLE001 — re-raised by every operation, as the model does
+                state['ef'] = e
+        if isinstance(state['ef'], Exception):
+            raise state['ef']
+        return state['ef']
+
+    def obj_obs(sec, gets):
+        if sec is None:
+            return None
+        if isinstance(sec, RelocationSection):
+            return {'rel': obs_table(sec, gets)}
+        if isinstance(sec, RelrRelocationSection):
+            return {'relr': obs_relr(sec, gets[0] if gets else None)}
+        return {'other': type(sec).__name__}
+
+    def do(op):
+        f = ef()
+        what = op['op']
+        if what == 'sec':
+            return obj_obs(f.get_section(op['i']), op.get('get', []))
+        if what == 'byname':
+            return obj_obs(f.get_section_by_name(bytes.fromhex(op['name']).decode('utf-8')), op.get('get', []))
+        if what in ('find', 'apply'):
+            # the section object whose relocations are wanted: any section bearing the name will do (only .name is used)
+            class Named:
+                name = bytes.fromhex(op['target']).decode('utf-8')
+            h = RelocationHandler(f)
+            rs = h.find_relocations_for_section(Named)
+            if rs is None:
+                return None
+            if what == 'find':
+                return [section_index_of(f, rs), canon(rs.name.encode('utf-8')), run_impl(lambda: rs['sh_offset'])]
+            stream = io.BytesIO()
+            stream.write(bytes.fromhex(op['section']))
+            h.apply_section_relocations(stream, rs)
+            return canon(stream.getvalue())
+        if what == 'dwarf':
+            di = f.get_dwarf_info(relocate_dwarf_sections=op['relocate'], follow_links=False)
+            d = getattr(di, op['kw'])
+            return None if d is None else canon(d.stream.getvalue())
+        raise KeyError(what)
+
+    return [run_impl(lambda op=op: do(op)) for op in ops]
+
+
+def ask_files(ctx, fruns, out):
+    """second phase: the file-level model for every case of the chunk"""
+    models = ask_safe(ctx, fruns)
+    for o, m in zip(out, models):
+        if 'fatal' in m:
+            raise RuntimeError('driver: %s' % m['fatal'])
+        o['fmodel'] = m['model']
+
+
 # --------------------------------------------------------------------------------------------- rel stream
 def gen_rel(rng):
     mname = rng.choice(['mips', 'mips', 'x64', 'x86', 'arm', 'aarch64', 'ppc64', 'sparc', 'unknown', 'loongarch'])
@@ -151,7 +244,7 @@ def patch_sh_size(data, cls, le, shoff, idx, size):
 
 def eval_rel(ctx, reqs):
     encs = ask_safe(ctx, [{k: v for k, v in r.items() if k not in ('variant', 'align', 'extra', 'gets')} for r in reqs])
-    out, runs = [], []
+    out, runs, fruns = [], [], []
     for req, enc in zip(reqs, encs):
         if 'fatal' in enc:
             raise RuntimeError('driver: %s on %r' % (enc['fatal'], req))
@@ -190,12 +283,20 @@ def eval_rel(ctx, reqs):
         if wf:
             ex = enc['expect']
             expect = {'num': {'ok': ex['num']}, 'is_rela': ex['is_rela'], 'entries': {'ok': ex['entries']}}
-        out.append({'impl': impl, 'expect': expect, 'wf': wf})
+        # whole file: the same section by index and by name on ONE fresh object, in a content-derived order
+        fops = [{'op': 'sec', 'i': i, 'get': req['gets']},
+                {'op': 'byname', 'name': hx(('.rela.foo' if rela else '.rel.foo').encode()), 'get': req['gets']},
+                {'op': 'byname', 'name': hx(b'.nothing')}]
+        if content_bit(data):
+            fops.reverse()
+        fruns.append({'p': 'C08', 'k': 'file_api', 'hex': hx(data), 'ops': fops})
+        out.append({'impl': impl, 'expect': expect, 'wf': wf, 'fops': fops, 'fimpl': impl_file_ops(data, fops)})
     models = ask_safe(ctx, runs)
     for o, m in zip(out, models):
         if 'fatal' in m:
             raise RuntimeError('driver: %s' % m['fatal'])
         o['model'] = m['model']
+    ask_files(ctx, fruns, out)
     return out
 
 
@@ -241,7 +342,7 @@ def gen_relr(rng):
 
 def eval_relr(ctx, reqs):
     encs = ask_safe(ctx, [{k: v for k, v in r.items() if k not in ('variant', 'align', 'machine')} for r in reqs])
-    out, runs = [], []
+    out, runs, fruns = [], [], []
     for req, enc in zip(reqs, encs):
         if 'fatal' in enc:
             raise RuntimeError('driver: %s on %r' % (enc['fatal'], req))
@@ -266,12 +367,18 @@ def eval_relr(ctx, reqs):
                      'offset': img.offsets[i], 'size': len(table), 'entsize': entsize})
         wf = enc['wf'] and req['variant'] == 'ok'
         expect = {'offsets': {'ok': enc['expect']['offsets']}, 'num': {'ok': enc['expect']['num']}} if wf else None
-        out.append({'impl': impl, 'expect': expect, 'wf': wf})
+        fops = [{'op': 'sec', 'i': i, 'get': [content_bit(data, 2)] if content_bit(data, 1) else []},
+                {'op': 'byname', 'name': hx(b'.relr.dyn')}]
+        if content_bit(data):
+            fops.reverse()
+        fruns.append({'p': 'C08', 'k': 'file_api', 'hex': hx(data), 'ops': fops})
+        out.append({'impl': impl, 'expect': expect, 'wf': wf, 'fops': fops, 'fimpl': impl_file_ops(data, fops)})
     models = ask_safe(ctx, runs)
     for o, m in zip(out, models):
         if 'fatal' in m:
             raise RuntimeError('driver: %s' % m['fatal'])
         o['model'] = m['model']
+    ask_files(ctx, fruns, out)
     return out
 
 
@@ -309,6 +416,11 @@ def gen_dyn(rng):
         req['variant'] = 'bad-ent'             # DT_*ENT disagrees → ELFError
     elif r < 0.14:
         req['variant'] = 'unmapped'            # table address outside every PT_LOAD → offset None
+    elif r < 0.20:
+        req['variant'] = 'vaddr0'              # the PT_LOAD maps address 0 and the first table sits there (in the domain)
+        req['base'] = 0
+    elif r < 0.24:
+        req['variant'] = 'no-size-tag'         # DT_*SZ / DT_PLTRELSZ missing → StopIteration
     return req
 
 
@@ -334,7 +446,8 @@ def eval_dyn(ctx, reqs):
         cls, le = req['cls'], req['le']
         E = '<' if le else '>'
         w = cls // 8
-        blob = bytearray(b'\xcc' * 8)
+        v = req['variant']
+        blob = bytearray(b'' if v == 'vaddr0' else b'\xcc' * 8)
         addr = {}
         for nm in ('JMPREL', 'RELR', 'RELA', 'REL'):         # file order differs from dict order on purpose
             if nm in tabs:
@@ -344,7 +457,6 @@ def eval_dyn(ctx, reqs):
                 blob += bytes.fromhex(tabs[nm]['bytes'])
         blob += b'\xcc' * 8
         tags = [(DT['NEEDED'], 1)]
-        v = req['variant']
         for nm in ('REL', 'RELA', 'RELR', 'JMPREL'):
             if nm not in tabs:
                 continue
@@ -354,9 +466,13 @@ def eval_dyn(ctx, reqs):
             if v == 'bad-ent':
                 ent += w
             if nm == 'JMPREL':
-                tags += [(DT['JMPREL'], a), (DT['PLTRELSZ'], size), (DT['PLTREL'], DT['RELA'] if req['tables'][nm]['rela'] else DT['REL'])]
+                tags += [(DT['JMPREL'], a), (DT['PLTREL'], DT['RELA'] if req['tables'][nm]['rela'] else DT['REL'])]
+                if v != 'no-size-tag':
+                    tags.append((DT['PLTRELSZ'], size))
             else:
-                tags += [(DT[nm], a), (DT[nm + 'SZ'], size)]
+                tags += [(DT[nm], a)]
+                if v != 'no-size-tag':
+                    tags.append((DT[nm + 'SZ'], size))
                 if v != 'no-ent-tag':
                     tags.append((DT[nm + 'ENT'], ent))
         tags.append((DT['NULL'], 0))
@@ -385,7 +501,7 @@ def eval_dyn(ctx, reqs):
         runs.append({'p': 'C08', 'k': 'run_dyn', 'hex': hx(data), 'le': le, 'cls': cls, 'machine': req['machine'],
                      'dyn_offset': img.offsets[idyn], 'empty': False,
                      'loads': [[req['base'], len(blob), img.offsets[idata]]]})
-        wf = v == 'ok' and all(t['wf'] for t in tabs.values())
+        wf = v in ('ok', 'vaddr0') and all(t['wf'] for t in tabs.values())
         expect = None
         if wf:
             expect = []
@@ -451,12 +567,24 @@ def gen_apply(rng):
         e = {'offset': off, 'sym': sym, 'type': t}
         if rela:
             e['addend'] = clamp_s(sint(rng, cls), cls)
-        if cls == 64 and mname == 'mips' and rng.random() < 0.15:
-            e['type2'], e['type3'], e['ssym'] = rng.choice([0, 1]), rng.choice([0, 0, 7]), rng.choice([0, 0, 3])
+        if cls == 64 and mname == 'mips' and rng.random() < 0.25:
+            # MIPS64 composite entries: second / third type (R_MIPS_NONE, R_MIPS_32, R_MIPS_SUB, …) and the special symbol
+            e['type2'], e['type3'], e['ssym'] = rng.choice([0, 0, 1, 2, 24]), rng.choice([0, 0, 0, 7, 24]), rng.choice([0, 0, 0, 3])
         relocs.append(e)
     return {'p': 'C08', 'k': 'enc_apply', 'le': le, 'cls': cls, 'machine': EM[mname], 'rela': rela, 'section': hx(section),
             'syms': syms, 'relocs': relocs, 'relocate': rng.random() < 0.85, 'decoy': rng.random() < 0.5,
-            'secname': rng.choice(['.debug_info', '.debug_info', '.debug_info', '.debug_line', '.debug_aranges'])}
+            'secname': rng.choice(['.debug_info', '.debug_info', '.debug_info', '.debug_line', '.debug_aranges']),
+            # COMDAT style: a second section of the same name with its own relocation section ('before': ahead of the pair
+            # under test, 'after': behind it); names are then not conventional — lookup by name and by sh_info differ
+            'dup': rng.choice(['before', 'after']) if rng.random() < 0.08 else None,
+            # the relocation section ahead of the section it relocates (both orders occur in practice)
+            'relfirst': rng.random() < 0.2,
+            # a second symbol table with other values (same or another name, ahead of or behind the one sh_link designates)
+            'symdecoy': rng.choice([None, None, ['.symtab', 'before'], ['.symtab', 'after'], ['.dynsym', 'before'],
+                                    ['.dynsym', 'after']]),
+            # malformed: sh_link designates the string table (AttributeError at the first entry, nothing with none) —
+            # outside the domain, correspondence only
+            'badlink': rng.random() < 0.04}
 
 
 def section_headers(ef):
@@ -474,27 +602,59 @@ SEC_ATTR = {'.debug_info': 'debug_info_sec', '.debug_line': 'debug_line_sec', '.
 
 
 def eval_apply(ctx, reqs):
-    encs = ask_safe(ctx, [{k: v for k, v in r.items() if k not in ('relocate', 'decoy', 'secname')} for r in reqs])
-    out, runs = [], []
+    encs = ask_safe(ctx, [{k: v for k, v in r.items() if k not in ('relocate', 'decoy', 'secname', 'dup', 'relfirst', 'symdecoy', 'badlink')} for r in reqs])
+    out, runs, fruns, sruns = [], [], [], []
     for req, enc in zip(reqs, encs):
         if 'fatal' in enc:
             raise RuntimeError('driver: %s on %r' % (enc['fatal'], req))
         cls, le, rela = req['cls'], req['le'], req['rela']
         section = bytes.fromhex(req['section'])
+        relname = ('.rela' if rela else '.rel') + req['secname']
+        reltype = EB.SHT_RELA if rela else EB.SHT_REL
         img = EB.ElfImage(cls=cls, le=le, e_type=EB.ET_REL, e_machine=req['machine'])
         istr = img.add_section('.strtab', EB.SHT_STRTAB, data=b'\0')
+        sd = req.get('symdecoy')
+
+        def add_symdecoy():
+            # same layout, every st_value complemented: picking it (by name, by position, by type) shows in every S
+            raw = bytes.fromhex(enc['symbytes'])
+            es, vo, vw = enc['symentsize'], (4 if cls == 32 else 8), (4 if cls == 32 else 8)
+            flipped = b''.join(raw[k:k + vo] + bytes(b ^ 0xff for b in raw[k + vo:k + vo + vw]) + raw[k + vo + vw:k + es]
+                               for k in range(0, len(raw), es))
+            img.add_section(sd[0], EB.SHT_DYNSYM if sd[0] == '.dynsym' else EB.SHT_SYMTAB, data=flipped, link=istr,
+                            entsize=es, addralign=8)
+        if sd and sd[1] == 'before':
+            add_symdecoy()
         isym = img.add_section('.symtab', EB.SHT_SYMTAB, data=bytes.fromhex(enc['symbytes']), link=istr,
                                entsize=enc['symentsize'], addralign=8)
+        if sd and sd[1] == 'after':
+            add_symdecoy()
         if req['decoy']:
             # a relocation section for another section, listed first: must not be picked
             itxt = img.add_section('.text', EB.SHT_PROGBITS, data=bytes(16), flags=6)
-            img.add_section(('.rela' if rela else '.rel') + '.text', EB.SHT_RELA if rela else EB.SHT_REL,
+            img.add_section(('.rela' if rela else '.rel') + '.text', reltype,
                             data=bytes(enc['relentsize']), link=isym, info=itxt, entsize=enc['relentsize'], addralign=8)
-        idbg = img.add_section(req['secname'], EB.SHT_PROGBITS, data=section)
+
+        def add_twin():
+            # the other member of a COMDAT-style pair: same names, other contents, an empty relocation table
+            j = img.add_section(req['secname'], EB.SHT_PROGBITS, data=bytes(len(section)))
+            img.add_section(relname, reltype, data=b'', link=isym, info=j, entsize=enc['relentsize'], addralign=8)
+        if req.get('dup') == 'before':
+            add_twin()
+        ilink = istr if req.get('badlink') else isym
+        if req.get('relfirst'):
+            # sh_info names the index the section under test is about to get
+            irel = img.add_section(relname, reltype, data=bytes.fromhex(enc['relbytes']), link=ilink,
+                                   info=len(img.sections) + 1, entsize=enc['relentsize'], addralign=8)
+            idbg = img.add_section(req['secname'], EB.SHT_PROGBITS, data=section)
+        else:
+            idbg = img.add_section(req['secname'], EB.SHT_PROGBITS, data=section)
+            irel = img.add_section(relname, reltype, data=bytes.fromhex(enc['relbytes']), link=ilink, info=idbg,
+                                   entsize=enc['relentsize'], addralign=8)
         if req['secname'] != '.debug_info':
             img.add_section('.debug_info', EB.SHT_PROGBITS, data=b'')
-        img.add_section(('.rela' if rela else '.rel') + req['secname'], EB.SHT_RELA if rela else EB.SHT_REL,
-                        data=bytes.fromhex(enc['relbytes']), link=isym, info=idbg, entsize=enc['relentsize'], addralign=8)
+        if req.get('dup') == 'after':
+            add_twin()
         data = img.build()
 
         def impl_fn(data=data, relocate=req['relocate'], attr=SEC_ATTR[req['secname']]):
@@ -503,18 +663,46 @@ def eval_apply(ctx, reqs):
             return canon(getattr(di, attr).stream.getvalue())
         impl = run_impl(impl_fn)
         secs, symtabs = section_headers(open_elf(data))
+        # the argument-fed kind is handed the bytes of the section the loader reads: the LAST one bearing the name
+        picked = hx(bytes(len(section))) if req.get('dup') == 'after' else req['section']
         runs.append({'p': 'C08', 'k': 'run_apply', 'hex': hx(data), 'le': le, 'cls': cls, 'machine': req['machine'], 'secs': secs,
-                     'symtabs': symtabs, 'name': req['secname'], 'section': req['section'], 'relocate': req['relocate']})
+                     'symtabs': symtabs, 'name': req['secname'], 'section': picked, 'relocate': req['relocate']})
+        # whole file: lookup, caller-side apply on a copy, and the loader — one fresh object, content-derived order
+        tname = hx(req['secname'].encode())
+        fops = [{'op': 'find', 'target': tname},
+                {'op': 'apply', 'target': tname, 'section': req['section']},
+                {'op': 'dwarf', 'relocate': req['relocate'], 'kw': SEC_ATTR[req['secname']]},
+                {'op': 'byname', 'name': hx(relname.encode()), 'get': [0]},
+                {'op': 'find', 'target': hx(b'.nothing')}]
+        k = content_bit(data) + 2 * content_bit(data, 1)
+        fops = fops[k:] + fops[:k]
+        fruns.append({'p': 'C08', 'k': 'file_api', 'hex': hx(data), 'ops': fops})
+        sruns.append({'p': 'C08', 'k': 'spec_find', 'target': tname, 'tindex': idbg,
+                      'secs': [[hx(x['name'].encode()), x['type'], x['info']] for x in img.sections]
+                              + [[hx(b'.shstrtab'), EB.SHT_STRTAB, 0]]})
         if not req['relocate']:
             wf, expect = True, enc['expect_norelocate'] if 'expect_norelocate' in enc else {'ok': {'b': req['section']}}
         else:
             wf, expect = enc['wf'], enc['expect']
-        out.append({'impl': impl, 'expect': expect if wf else None, 'wf': wf})
+        out.append({'impl': impl, 'expect': expect if wf else None, 'wf': wf, 'fops': fops, 'fimpl': impl_file_ops(data, fops),
+                    'enc_wf': enc['wf'], 'enc_expect': enc['expect'], 'irel': irel, 'idbg': idbg})
     models = ask_safe(ctx, runs)
     for o, m in zip(out, models):
         if 'fatal' in m:
             raise RuntimeError('driver: %s' % m['fatal'])
         o['model'] = m['model']
+    ask_files(ctx, fruns, out)
+    for o, m in zip(out, ask_safe(ctx, sruns)):
+        if 'fatal' in m:
+            raise RuntimeError('driver: %s' % m['fatal'])
+        o['lookup'] = m
+        # names not conventional (COMDAT twins): which table is applied to which section is not the pair under test —
+        # outside the domain of the direct comparison, correspondence only
+        if not (m['follows'] and m['last'] == o['idbg']):
+            o['wf'], o['expect'], o['unconventional'] = False, None, True
+    for req, o in zip(reqs, out):
+        if req.get('badlink'):
+            o['wf'], o['expect'], o['badlink'] = False, None, True
     return out
 
 
@@ -534,6 +722,57 @@ def prop_holds(stream, req, o):
     if stream == 'dyn':
         return got == ex
     raise KeyError(stream)
+
+
+def file_prop_holds(stream, req, o):
+    """direct comparisons on the whole-file observations (only called when o['wf']): what the property prescribes for the
+    objects reached by index / by name, for the lookup, and for the caller-side apply"""
+    if 'fops' not in o:
+        return True
+    ex = o['expect']
+    for op, got in zip(o['fops'], o['fimpl']):
+        what = op['op']
+        if what in ('byname', 'find') and bytes.fromhex(op.get('name', op.get('target'))) == b'.nothing':
+            if got != {'ok': None}:
+                return False
+            continue
+        if stream == 'rel':
+            t = (got.get('ok') or {}).get('rel')
+            if t is None or not all(t.get(k) == v for k, v in ex.items()):
+                return False
+            ents = ex['entries']['ok']
+            for n, g in zip(op.get('get', []), t['get']):
+                if n < len(ents) and g != {'ok': ents[n]}:
+                    return False
+        elif stream == 'relr':
+            if got != {'ok': {'relr': ex}}:
+                return False
+        elif stream == 'apply':
+            lk = o['lookup']
+            if what == 'find':
+                # the section found is the standard's: by name, which (names being conventional) is by sh_info
+                if not (lk['byname'] == lk['byinfo'] == o['irel'] and 'ok' in got and got['ok'] is not None
+                        and got['ok'][0] == lk['byname']):
+                    return False
+            elif what == 'apply':
+                if o['enc_wf'] and got != ({'ok': o['enc_expect']['ok']} if 'ok' in o['enc_expect'] else o['enc_expect']):
+                    return False
+            elif what == 'dwarf':
+                if got != ex:
+                    return False
+            elif what == 'byname':
+                if o['enc_wf']:
+                    t = (got.get('ok') or {}).get('rel')
+                    if t is None or t['num'] != {'ok': len(req['relocs'])} or t['is_rela'] != req['rela']:
+                        return False
+    return True
+
+
+def count_file_ops(ctx, stream, o):
+    for op, got in zip(o.get('fops', []), o.get('fimpl', [])):
+        res = 'err:' + got['err'] if 'err' in got else ('none' if got['ok'] is None else
+              (next(iter(got['ok'])) if isinstance(got['ok'], dict) and op['op'] in ('sec', 'byname') else 'ok'))
+        ctx.out.count('file:%s:%s:%s' % (stream, op['op'], res))
 
 
 EVAL = {'rel': eval_rel, 'relr': eval_relr, 'dyn': eval_dyn, 'apply': eval_apply}
@@ -564,31 +803,44 @@ def run_stream(ctx, stream, n):
             case = {'req': req}
             ctx.out.case(case)
             ctx.out.count(hist_key(stream, req, o))
+            count_file_ops(ctx, stream, o)
+            if o.get('badlink'):
+                ctx.out.count(stream + ':sh_link-not-a-symtab')
+            if o.get('unconventional'):
+                ctx.out.count(stream + ':names-not-conventional')
+            elif stream == 'apply':
+                ctx.out.count('apply:lookup:by-name==by-sh_info')
             if not o['wf']:
                 ctx.out.count(stream + ':outside-domain')
             if o['wf'] and not prop_holds(stream, req, o):
                 ctx.out.violation('property', stream, case, expect=o['expect'], got=o['impl'], model=o['model'])
+            elif o['wf'] and not file_prop_holds(stream, req, o):
+                ctx.out.violation('property', stream, case, expect=o['expect'], got=o['fimpl'], model=o.get('fmodel'),
+                                  lookup=o.get('lookup'))
             elif o['impl'] != o['model']:
                 ctx.out.violation('correspondence', stream, case, got=o['impl'], model=o['model'])
+            elif o.get('fimpl') != o.get('fmodel'):
+                ctx.out.violation('correspondence', stream, case, got=o['fimpl'], model=o['fmodel'], ops=o['fops'])
         if ctx.time_left() < 5:
             ctx.out.notes.append('%s: stopped early at %d/%d (time budget)' % (stream, s + len(chunk), len(reqs)))
             break
 
 
 def run(ctx):
-    run_stream(ctx, 'rel', ctx.budget(900, 30000))
-    run_stream(ctx, 'relr', ctx.budget(700, 25000))
+    run_stream(ctx, 'rel', ctx.budget(900, 22000))
+    run_stream(ctx, 'relr', ctx.budget(700, 18000))
     run_stream(ctx, 'dyn', ctx.budget(400, 12000))
-    run_stream(ctx, 'apply', ctx.budget(2500, 80000))
+    run_stream(ctx, 'apply', ctx.budget(2500, 55000))
 
 
 def replay(ctx, payload):
     v = payload['violation']
     stream, req = v['stream'], v['case']['req']
     o = EVAL[stream](ctx, [req])[0]
-    fails_prop = bool(o['wf'] and not prop_holds(stream, req, o))
-    fails_corr = o['impl'] != o['model']
+    fails_prop = bool(o['wf'] and not (prop_holds(stream, req, o) and file_prop_holds(stream, req, o)))
+    fails_corr = o['impl'] != o['model'] or o.get('fimpl') != o.get('fmodel')
     return {'stream': stream, 'case': v['case'], 'impl': o['impl'], 'expect': o['expect'], 'model': o['model'],
+            'file_ops': o.get('fops'), 'file_impl': o.get('fimpl'), 'file_model': o.get('fmodel'), 'lookup': o.get('lookup'),
             'wf': o['wf'], 'fails': fails_prop or fails_corr, 'kind': 'property' if fails_prop else ('correspondence' if fails_corr else None)}
 
 
